@@ -1,11 +1,12 @@
 SPECIFICATION Spec
 CONSTANTS
   MaxNodes = 5
-  SubRanges = TRUE
+  Shape = "any"
+  SubRanges = FALSE
   WithSkips = FALSE
   Engine = "any"
   ExcludeFinding = TRUE
   Bug = "none"
-  Emit = FALSE
+  Emit = TRUE
 INVARIANTS InvNoRepeat InvVerdict InvProgress EmitInv
 CHECK_DEADLOCK FALSE
